@@ -4,7 +4,7 @@ CONSTANTS MaxPre = 1 MaxN = 5
   Accs <- AccsAll
   Posts <- PostsMid
   FlowKinds = {"bare", "ctx"}
-  Drivers = {"run", "fill", "split"}
+  Drivers = {"run", "fill", "persist", "split"}
   Places = {"alone", "middle", "afterstop"}
   StopFlag = "per_branch"
   CopyMode = "per_branch"
